@@ -1603,6 +1603,221 @@ def compare_xml_text(run: Run, cases):
             compare_gate_routes(run, text, df, bool(must), et_outcomes)
 
 
+# ---- phase 5: the XML declaration's pseudo-attributes (XmlDecl.parse / scanPrologX) ------------------
+DECL_ENC = {'ok': ['utf-8', 'UTF-8', 'Utf-8', 'US-ASCII', 'iso-8859-1', 'latin-1', 'ascii', 'cp1252', 'utf8', 'LATIN1'],
+            'wrong': ['UTF-16', 'utf-16'],
+            'multibyte': ['big5', 'UTF-32', 'shift_jis', 'EUC-JP'],
+            'unknown': ['x-foo', 'standalone-yes', 'ebcdic-c19', 'a', 'U.T_F', 'version']}
+DECL_TAILS = [('root', '<r>t</r>', False),
+              ('ext-doctype', '<!DOCTYPE r SYSTEM "file:///nonexistent-c19.dtd"><r>t</r>', False),
+              ('entity', '<!DOCTYPE r [<!ENTITY e "EXPANDED">]><r>&e;</r>', True),
+              ('misc-entity', '\n<!-- c --><!DOCTYPE r [<!ENTITY e "EXPANDED">]><r>&e;</r>', True)]
+DECL_SEEDS = [
+    ('<?xml version="1.0" encoding="x-foo"?><r>t</r>', True),      # F19e (fixed): FODC0006, not a bare LookupError
+    ('<?xml version="1.0" encoding="x-foo"?><!DOCTYPE r [<!ENTITY e "EXPANDED">]><r>&e;</r>', True),
+    # (text, grammatical declaration?)  -- the second one defeated the phase-2 scanner's `standalone`..`yes` search
+    ('<?xml version="1.0"?><r>t</r>', True),
+    ('<?xml version="1.0" encoding="standalone-yes"?><!DOCTYPE r SYSTEM "file:///nonexistent-c19.dtd"><r>t</r>', True),
+    ('<?xml version="1.0" encoding="utf-8" standalone="yes"?><!DOCTYPE r SYSTEM "file:///nonexistent-c19.dtd"><r>t</r>', True),
+    ('<?xml version="1.0" encoding="utf-8" standalone="no"?><!DOCTYPE r SYSTEM "file:///nonexistent-c19.dtd"><r>t</r>', True),
+    ("<?xml\tversion = '1.1'\n encoding\n=\n'US-ASCII'  standalone='no'\r\n?><r>t</r>", True),
+    ('<?xml version="1.0" standalone="yes" encoding="utf-8"?><r>t</r>', False),
+    ('<?xml version="1.0"encoding="utf-8"?><r>t</r>', False),
+    ('<?xml version="1.0" standalone="maybe"?><r>t</r>', False),
+    ('<?xml encoding="utf-8"?><r>t</r>', False),
+    ('<?xml version="1.0" encoding="8bit"?><r>t</r>', False),
+    ('<?xml version="1.0" foo?><r>t</r>', False),
+    ('<?xml version="1.0" ? ?><r>t</r>', False),
+    ('<?xml version="1.0\'?><r>t</r>', False),
+    ('<?xml version="2.x"?><r>t</r>', False),       # not grammatical [26], accepted by expat (laxVersion)
+    ('<?xml version="1.0" encoding="big5"?><r>t</r>', True),
+    ('<?xml version="1.0" encoding="UTF-16"?><r>t</r>', True),
+    ('<?xml version="1.0" standalone="yes"?><!DOCTYPE r [<!ENTITY e "EXPANDED">]><r>&e;</r>', True),
+]
+
+
+def gen_decl_case(rng):
+    """(text, info): an XML declaration derived from the grammar [23]-[32],[80],[81] (random white space,
+    quotes, values) or a near miss of one, followed by a root / external DOCTYPE / entity-declaring tail.
+    info: kind, expected values and grammaticality when the text was derived (None for near misses)"""
+    def S(allow_empty=False):
+        n = rng.choice([0, 0, 1] if allow_empty else [1, 1, 1, 2, 3])
+        return ''.join(rng.choice(' \t\n\r') for _ in range(n))
+
+    def attr(kw, val):
+        q = rng.choice('"\'')
+        return [S(), kw, S(True), '=', S(True), q, val, q]
+    ver = rng.choice(['1.0', '1.0', '1.0', '1.1', '1.10', '1.007'] if rng.random() < 0.8 else
+                     ['2.0', '1.', '', '1.0a', 'x_y-z', '10', '1.0.0'])
+    gram = ver.startswith('1.') and ver[2:].isdigit() and ver.isascii()
+    parts = [attr('version', ver)]
+    encv = sdv = None
+    if rng.random() < 0.6:
+        cls = rng.choice(['ok', 'ok', 'ok', 'ok', 'wrong', 'multibyte', 'unknown'])
+        encv = rng.choice(DECL_ENC[cls])
+        parts.append(attr('encoding', encv))
+    if rng.random() < 0.5:
+        sdv = rng.choice(['yes', 'no'])
+        parts.append(attr('standalone', sdv))
+    trail = S(True)
+    info = {'kind': 'derived', 'gram': gram,
+            'values': f'V:{ver},E:{encv or "-"},S:{ {"yes": "y", "no": "n", None: "-"}[sdv] }'}
+    head = '<?xml'
+    if rng.random() < 0.45:
+        info = {'kind': None, 'gram': None, 'values': None}
+        m = rng.choice(['no-space', 'swap', 'dup', 'upper-kw', 'quote-mismatch', 'bad-value-char', 'bad-sd', 'bad-encname',
+                        'no-eq', 'junk', 'no-version', 'head', 'char-edit', 'char-edit', 'unquoted', 'unknown-attr'])
+        i = rng.randrange(len(parts))
+        if m == 'no-space':
+            parts[i][0] = ''
+        elif m == 'swap' and len(parts) > 1:
+            j = rng.randrange(len(parts) - 1)
+            parts[j], parts[j + 1] = parts[j + 1], parts[j]
+        elif m == 'dup':
+            parts.insert(i, list(parts[i]))
+        elif m == 'upper-kw':
+            parts[i][1] = rng.choice([parts[i][1].upper(), parts[i][1].capitalize(), parts[i][1] + 'x', parts[i][1][:-1]])
+        elif m == 'quote-mismatch':
+            parts[i][7] = '"' if parts[i][5] == "'" else "'"
+        elif m == 'unquoted':
+            parts[i][5] = parts[i][7] = ''
+        elif m == 'bad-value-char':
+            v = parts[i][6]
+            k = rng.randrange(len(v) + 1)
+            parts[i][6] = v[:k] + rng.choice(' +/:;,=<&?') + v[k:]
+        elif m == 'bad-sd':
+            parts.append(attr('standalone', rng.choice(['maybe', 'YES', 'No', '', 'true', 'yes.', 'y'])))
+        elif m == 'bad-encname':
+            parts.insert(1, attr('encoding', rng.choice(['8bit', '-utf', '', '.x', '_a', '1']))) if encv is None else None
+        elif m == 'no-eq':
+            parts[i][3] = rng.choice(['', '==', ':'])
+        elif m == 'junk':
+            trail += rng.choice(['foo', '?', 'x="1"', '=', '"', 'standalone'])
+        elif m == 'no-version':
+            parts = parts[1:]
+        elif m == 'head':
+            head = rng.choice(['<?XML', '<?xmlx', ' <?xml', '<?xml?', '<? xml', '<?Xml'])
+        else:
+            m = 'char-edit'
+        info['kind'] = m
+        body = ''.join(''.join(p) for p in parts) + trail
+        if m == 'char-edit':
+            k = rng.randrange(len(body) + 1)
+            c = rng.choice(' "\'=?>vxyes-.1aE\t')
+            e = rng.random()
+            body = body[:k] + c + body[k:] if e < 0.34 else body[:k] + body[k + 1:] if e < 0.67 else body[:k] + c + body[k + 1:]
+    else:
+        body = ''.join(''.join(p) for p in parts) + trail
+    tname, tail, must = rng.choice(DECL_TAILS)
+    info['tail'], info['must'] = tname, must
+    return head + body + '?>' + tail, info
+
+
+_ENC_CLASS = {}
+
+
+def py_enc_class(name: str) -> str:
+    """what the byte parser of the running Python does with this encoding name on UTF-8 bytes of ASCII text"""
+    from xml.etree import ElementTree
+    if name not in _ENC_CLASS:
+        try:
+            ElementTree.XML(f'<?xml version="1.0" encoding="{name}"?><r/>'.encode('utf-8'))
+            _ENC_CLASS[name] = 'ok'
+        except ElementTree.ParseError:
+            _ENC_CLASS[name] = 'wrong'
+        except LookupError:
+            _ENC_CLASS[name] = 'unknown'
+        except ValueError:
+            _ENC_CLASS[name] = 'multibyte'
+    return _ENC_CLASS[name]
+
+
+def expat_decl(text: str):
+    """oracle: expat on the characters (encoding overridden, as for str input): the XmlDeclHandler's values,
+    or 'bad' when expat reports XML_ERROR_XML_DECL, '-' when it saw no XML declaration"""
+    import xml.parsers.expat as expat
+    p = expat.ParserCreate()
+    got = []
+    p.XmlDeclHandler = lambda v, e, s: got.append((v, e, s))
+    code = 0
+    try:
+        p.Parse(text, True)
+    except expat.ExpatError as e:
+        code = e.code
+    if got:
+        v, e, s = got[0]
+        return f'V:{v},E:{e if e is not None else "-"},S:{ {1: "y", 0: "n", -1: "-"}[s] }'
+    return 'bad' if code == 30 else '-'
+
+
+def compare_xml_decl(run: Run, cases):
+    st = run.stats
+    lines = [f'XMLD defuse={df} text={enc(t)}' for df, (t, _) in cases]
+    answers = run.driver('C19', lines)
+    site = '_xpath30_functions.py evaluate__parse_xml: etree.XML(arg.encode("utf-8")) / etree.py defuse_xml'
+    for (df, (text, info)), ans in zip(cases, answers):
+        case = {'defuse_xml': df, 'xml': text, 'op': 'xmldecl'}
+        if not ans.startswith('decl='):
+            run.disagree(Disagreement(case, 'driver:' + ans, what='protocol'))
+            continue
+        fs = dict(kv.split('=', 1) for kv in ans.split(' '))
+        good = fs['decl'].startswith('V:')
+        st.case(case, nontrivial=True)
+        st.count('xmldecl:kind=' + str(info.get('kind')))
+        st.count('xmldecl:decl=' + ('good' if good else fs['decl']))
+        st.count('xmldecl:tail=' + str(info.get('tail')))
+        if good:
+            st.count(f'xmldecl:gram={fs["gram"]}')
+            st.count('xmldecl:cls=' + fs['cls'])
+            st.count('xmldecl:standalone=' + fs['standalone'])
+        # (1) the declaration itself: expat's verdict and values = model's; derived texts: = the derivation
+        oracle = expat_decl(text)
+        spec = info.get('values') if info.get('kind') == 'derived' else None
+        if oracle != fs['decl'] or (spec is not None and oracle != spec):
+            run.disagree(Disagreement(dict(case, part='declaration'), oracle, fs['decl'], spec=spec,
+                                      what='xmldecl-values', site='expat doParseXmlDecl (oracle) / XmlDecl.parse'))
+        if good and (fs['rt'] != '1' or fs['expat'] != '1'):
+            run.disagree(Disagreement(dict(case, part='roundtrip'), 'rt=1 expat=1', f'rt={fs["rt"]} expat={fs["expat"]}',
+                                      what='xmldecl-render', site='XmlDeclGrammar.render'))
+        if info.get('kind') == 'derived' and good and fs['gram'] != str(int(info['gram'])):
+            run.disagree(Disagreement(dict(case, part='grammatical'), str(int(info['gram'])), fs['gram'],
+                                      what='xmldecl-grammatical', site='XmlDeclGrammar.grammatical'))
+        if good and fs['cls'] != '-':
+            name = fs['decl'].split(',')[1][2:]
+            if py_enc_class(name) != fs['cls']:
+                run.disagree(Disagreement(dict(case, part='encoding-table', name=name), py_enc_class(name), fs['cls'],
+                                          what='xmldecl-encoding-class', site='XmlDecl.encClass'))
+        # (2) fn:parse-xml on the whole text
+        impl = eval_gate('et:context-root', 'parse-xml', text, df)
+        model = fs['xml']
+        st.count('xmldecl:parse-xml:' + (impl[:3] if impl.startswith('ok') else impl))
+        spec, tags = None, []
+        if fs['rawenc'] == '1':
+            st.count('xmldecl:unusable-encoding')
+            spec = 'ERR:FODC0006'          # F19e (fixed by fix-c19-5): an ordinary ill-formed document
+        elif df in ('D', '1') and info.get('must') and good:
+            spec = impl if impl.startswith('ERR:') else 'ERR:(rejected)'
+        if impl != model or (spec is not None and impl != spec):
+            run.disagree(Disagreement(dict(case, fn='parse-xml'), impl, model, spec=spec, what='xmldecl-parse-xml',
+                                      site=site, tags=tags if impl == model else []))
+
+
+def search_xml_decl(sub: Run):
+    """real code against expat and the derivations alone: the seed declarations through fn:parse-xml"""
+    n = 0
+    for text, wf in DECL_SEEDS:
+        oracle = expat_decl(text)
+        impl = eval_gate('et:context-root', 'parse-xml', text, '0')
+        n += 1
+        name = oracle.split(',')[1][2:] if oracle.startswith('V:') else '-'
+        usable = name == '-' or py_enc_class(name) == 'ok'
+        want_ok = oracle.startswith('V:') and usable
+        if impl.startswith('ok:') != want_ok or (not want_ok and impl != 'ERR:FODC0006'):
+            sub.disagree(Disagreement({'defuse_xml': '0', 'xml': text, 'op': 'xmldecl'}, impl, None,
+                                      spec='ok:(document)' if want_ok else 'ERR:FODC0006', what='xmldecl-parse-xml'))
+    return n
+
+
 def correspond_gates(run: Run):
     rng = run.rng
     env_cases = [('D', {'C19_SECRET': 's3cr3t'}, 'C19_SECRET'), ('1', {'C19_SECRET': 's3cr3t'}, 'C19_SECRET')] + \
@@ -1623,6 +1838,9 @@ def correspond_gates(run: Run):
     text_cases = [(df, t) for t in SEED_TEXTS for df in ('D', '0')] + \
                  [(rng.choice(['D', 'D', 'D', '0', '1']), gen_text_case(rng)) for _ in range(run.scale(400, 6000))]
     compare_xml_text(run, text_cases)
+    decl_cases = [(df, (t, {'kind': 'seed', 'tail': 'seed', 'must': 'ENTITY' in t})) for t, _ in DECL_SEEDS for df in ('D', '0')] + \
+                 [(rng.choice(['D', 'D', '0', '1']), gen_decl_case(rng)) for _ in range(run.scale(400, 5000))]
+    compare_xml_decl(run, decl_cases)
 
 
 # ----------------------------------------------------------------------------------- search
@@ -1667,6 +1885,8 @@ def search(run: Run):
                                           None, spec='ERR:(rejected)', what='entity-gate-route'))
         compare_gate_routes(sub, text, 'D', True, ets)
         ngate += 1
+    ndecl = search_xml_decl(sub)
+    run.notes.append(f'search: {ndecl} seed XML declarations through fn:parse-xml against expat')
     run.notes.append(f'search: {ngate} entity-declaring gate texts x {len(all_routes())} routes x 2 functions')
     run.notes.append(f'search: {done} of {len(cases)} exhaustive small-scope histories on the real code, '
                      f'{len(sub.disagreements)} disagreements')
@@ -2253,7 +2473,8 @@ def arm_deadline(run: Run):
 
 def body(run: Run) -> int:
     if getattr(run, 'replay', None):
-        run.prove(['EPV.Props.C19', 'EPV.Props.C19Defaults'], ['EPV.Spec.GlobalsSpec'])
+        run.prove(['EPV.Props.C19', 'EPV.Props.C19Defaults', 'EPV.Props.C19XmlDecl'],
+                  ['EPV.Spec.GlobalsSpec', 'EPV.Spec.GlobalsXmlDeclSpec'])
         return replay(run, run.replay)
     try:
         info = translate(run)
@@ -2272,7 +2493,9 @@ def body(run: Run) -> int:
         'token.parser.base_uri is unset; collation URIs contain no TAB/CR/LF/NUL and no "[" "]"',
         'thread runs sample schedules (setswitchinterval 1e-6 + yields inside the stub); the theorems cover '
         'all interleavings of the protocol at the granularity of one lock/setlocale/strcoll call per step',
-        'setlocale\'s process-wide effect on other C libraries is outside the model']
+        'setlocale\'s process-wide effect on other C libraries is outside the model',
+        'XML declarations (phase 5): ASCII texts; the declared encoding is classified by the closed table '
+        'XmlDecl.encClass (every generated name is checked against the running Python\'s byte parser)']
     run.stats.rule = (
         'histories of 2..10 evaluations (13 collation-taking functions; collation = codepoint/html-ascii/'
         'caseblind, UCA URI with lang/fallback parameters in all orders incl. malformed ones, bare locale '
@@ -2281,8 +2504,13 @@ def body(run: Run) -> int:
         'outcome, lock, LC_COLLATE, setlocale request log, decimal context, os.environ vs model and spec. '
         'threads: 2..8 threads x 1..4 Selector evaluations, concurrent and sequential. gates: '
         'environment-variable on random environments, parse-xml(-fragment) on structured prologs. '
+        'XML declarations: derivations of the grammar [23]-[32],[80],[81] (random S, quotes, version numbers incl. '
+        'non-grammatical ones, 24 encoding names of 4 classes, standalone) and 15 kinds of near miss, followed by a '
+        'root / external DOCTYPE / entity-declaring tail: expat XmlDeclHandler values = XmlDecl.parse = derivation, '
+        'fn:parse-xml outcome = parseXmlTextX. '
         'distinct = distinct (world, history) / thread / gate cases')
-    run.prove(['EPV.Props.C19', 'EPV.Props.C19Defaults'], ['EPV.Spec.GlobalsSpec'])
+    run.prove(['EPV.Props.C19', 'EPV.Props.C19Defaults', 'EPV.Props.C19XmlDecl'],
+                  ['EPV.Spec.GlobalsSpec', 'EPV.Spec.GlobalsXmlDeclSpec'])
     arm_deadline(run)       # after the build: waiting for the shared lake lock is not the check's time
     try:
         correspond_histories(run)
